@@ -402,9 +402,9 @@ class Result:
 
 BACKENDS = [
     ("minisat", [], 150),
-    ("kissat", ["--external-sat-solver", "kissat"], 240),
-    ("z3", ["--z3"], 240),
-    ("cvc5", ["--cvc5"], 240),
+    ("kissat", ["--external-sat-solver", "kissat"], 480),  # generous: the same check has to finish on a slower, busier machine
+    ("z3", ["--z3"], 300),
+    ("cvc5", ["--cvc5"], 300),
 ]
 
 
